@@ -416,8 +416,8 @@ pub fn property() -> Property {
             Box::new(Sweep { name: "c03.installed", run: run_installed, replay: replay_zi }),
             Box::new(Sweep { name: "c03.bundled", run: run_bundled, replay: replay_zi }),
             Box::new(Sweep { name: "c03.synthetic", run: run_synthetic, replay: replay_zi }),
-            Box::new(Prop { name: "c03.generated", quick: 600_000, thorough: 30_000_000, strategy: strat_zone_probe, test: test_generated }),
-            Box::new(Prop { name: "c03.posix_gen", quick: 300_000, thorough: 10_000_000, strategy: strat_posix_case, test: test_posix }),
+            Box::new(Prop { name: "c03.generated", quick: 2_400_000, thorough: 30_000_000, strategy: strat_zone_probe, test: test_generated }),
+            Box::new(Prop { name: "c03.posix_gen", quick: 1_200_000, thorough: 10_000_000, strategy: strat_posix_case, test: test_posix }),
         ],
         floors: |rec| {
             rec.floor("c03.generated:within-1s-of-transition", "c03.generated:cases", 0.30);
